@@ -13,12 +13,15 @@
     [PtAccess.walk_items virtAddr] - the level and the virtual address of that level's entry in the recursive window,
     the 64-bit arithmetic of the model's walks - in order, stops after the first [false], and panics iff the closure
     does.  This is the contract under which the closures of Map / Unmap / pteForAddress are translated as the body of
-    [gvisit .. (walk_items ..)] (Lib/GoVisit.v).
+    [gvisit .. (walk_items ..)] (Lib/GoVisit.v).  Side condition: at least 5 units of loop fuel (four levels and the
+    exit test; with 4 the translation reports GFuel).  The step from this theorem to the [gvisit] form inside Map / Unmap /
+    pteForAddress is the translator's (no Coq lemma composes the two).
 
     Map, Unmap, Translate, MapTemporary.  The regenerated function returns the model's machine state and error
     (model code [e] as [T.err_of e]) resp. physical address, and panics exactly where the model reports [Stray]
     ([M.wmem] forgets the trace of seam calls, which the model does not describe; flushes and allocations are part of
-    the state).  Unmap and Translate: for every state with 64-bit memory words.  Map and MapTemporary: in addition
+    the state).  Unmap and Translate: for every state with 64-bit memory words.  Map: flags < 2^64 (no bound on page
+    or frame).  Map and MapTemporary: in addition
     under [M.map_stable]: the model resolves the entry address of a level ONCE and writes the new entry in one store,
     while the Go code dereferences the pointer again after each of its stores (the store of 0, SetFrame, SetFlags); the
     two agree when the entry is still found at its address after having been overwritten ([M.entry_stable]) - always so
